@@ -34,7 +34,7 @@ CHECKS = {
  "C13": dict(
    category="model_checking",
    text="Defrag.tla states the property functionally (benign fragment sets: nothing, then exactly the datagram, once; any other set: nothing, an error, or a datagram whose every byte some fragment placed at that offset); DefragGen.tla enumerates every arrival sequence in the bound (all intervals x MF, duplicates, overlaps, a second key, discards) and checks an ideal defragmenter; every sequence is replayed on the real ip4defrag (IHL 5/6) and TLC validates each result with byte provenance; random benign datagrams up to 65515 bytes, boundary offsets, hostile sets and IPv6 permutations extend it.",
-   design_ref="4/C13", technique="TLA+ property spec + TLC scenario enumeration + replay + TLC trace validation",
+   design_ref="4/C13", technique="TLA+ property spec + TLC scenario enumeration + replay + TLC trace validation; scripted scenarios escalated from the implementation-shaped transcription DefragImpl.tla (every run) and its behaviours replayed with drift comparison (thorough)",
    note="Byte provenance is decoded from fragment content; IPv6 is checked for benign permutations only."),
  "C16": dict(
    category="model_checking",
